@@ -6,13 +6,15 @@ from .. import formula as F
 from .. import refsem
 from .. import dref
 from .. import impl
+from .. import reconf
 
 ID = 'C16'
 LEVEL = 'exploration'
 RULE = ('all formulas without unbounded future (<=2 operators, 3-chains) x all traces w1 up to length n x ALL extensions w2 by 1..k samples over the '
         'alphabet; discrete offline: evaluate(w2)[t] == evaluate(w1)[t] for every t with t+h < |w1| (h = reference horizon); dense offline: grid '
         'signals and their extensions, equality of the step functions at every grid time t with t+h < end(w1); a case (formula, w1, w2) is '
-        'non-trivial when some unsettled position does change between w1 and w2 (the settled boundary is tight)')
+        'non-trivial when some unsettled position does change between w1 and w2 (the settled boundary is tight); life layer: the same for specification objects '
+        'that were configured and evaluated under another default unit / sampling period before (all ordered pairs of 4 configurations, bounds unit-less and with s / ms)')
 ASSUMPTIONS = ['horizon from vf/refsem.py (next = 1); values V3 / {-1,2}; extensions of bounded length']
 
 BF_U = ('not', 'prev', 's_prev', 'next', 's_next', 'rise', 'fall', 'once', 'historically', 'eventually', 'always')
@@ -52,6 +54,9 @@ def shards(tier):
     deep = deep[::3] if tier == 'quick' else deep
     for i in range(0, len(deep), 3):
         out.append({'kind': 'dt', 'deep': True, 'formulas': [F.to_json(f) for f in deep[i:i + 3]]})
+    for fi in range(len(LIFE_FORMULAS)):
+        for suffix in ('', 's', 'ms'):
+            out.append({'kind': 'life', 'formula': fi, 'suffix': suffix})
     fd = formula_set(tier, dense=True)
     per = 12 if tier == 'quick' else 4
     for i in range(0, len(fd), per):
@@ -106,6 +111,63 @@ def run_dt(shard, tier, res, mod):
                         res.nontrivial += 1
                 res.digest(text, w2, L1, bool(bad))
         res.sample({'spec': text, 'horizon': h, 'w1': [[-1.0], [2.0]], 'w2': [[-1.0], [2.0], [0.0]]}, 1)
+
+
+LIFE_FORMULAS = [('always', (0, 2), F.PX), ('eventually', (1, 2), F.X), ('until', (0, 1), F.PX, ('pred', '<=', F.X, F.C1)),
+                 ('once', (0, 2), F.PX), ('always', (0, 1), ('eventually', (0, 1), F.PX)), ('or', ('always', (1, 1), F.PX), ('once', (0, 1), F.X)),
+                 ('historically', (1, 2), ('next', F.PX))]
+
+
+def run_life(shard, tier, res, mod):
+    """the specification object has had an earlier life: configured, parsed and evaluated under configuration c0, then switched to c1
+    through the public setters.  Stability of settled values is a statement about every specification object, also one with a history."""
+    f = LIFE_FORMULAS[shard['formula']]
+    suffix = shard['suffix']
+    fj = F.to_json(f)
+    vs = sorted(F.fvars(f))
+    text = 'out = ' + F.pr(f, bound=reconf.speller(suffix))
+    n1, ext = (3, 2) if tier == 'quick' else (4, 2)
+    res.formulas += 1
+    case0 = {'kind': 'life', 'formula': fj, 'spec': text, 'vars': vs, 'suffix': suffix}
+    for name, c1, f1, spec in reconf.lived_objects('dt_off', f, suffix, vs, res, mod, case0):
+        h = refsem.horizon(f1)
+        case0['life'] = name
+        cache = {}
+
+        def val(tr):
+            if tr not in cache:
+                k, v = impl.outcome(impl.dt_evaluate, spec, F.trace_dict(tr, vs), reconf.times(c1, len(tr)))
+                cache[tr] = [p[1] for p in v] if k == 'ok' else ('exc', v)
+            return cache[tr]
+        w2s = list(F.traces(n1 + ext, F.V2, len(vs), minlen=2))
+        if F.has_op(f1, F.BIN_T) and F.max_bound(f1) > 100:
+            w2s = w2s[5::9]        # bounded since/until over a window of a thousand samples takes seconds per evaluation
+        for w2 in w2s:
+            o2 = val(w2)
+            for L1 in range(max(1, len(w2) - ext), len(w2)):
+                if L1 > n1:
+                    continue
+                w1 = w2[:L1]
+                o1 = val(w1)
+                res.evaluations += 1
+                case = dict(case0, w1=[list(e) for e in w1], w2=[list(e) for e in w2])
+                if isinstance(o1, tuple) or isinstance(o2, tuple):
+                    res.violation(mod, case, 'evaluate() after the switch %s raised %s' % (name, (o1 if isinstance(o1, tuple) else o2)[1]))
+                    continue
+                settled = [t for t in range(L1) if t + h < L1]
+                bad = [t for t in settled if not refsem.same(o1[t], o2[t])]
+                if bad:
+                    res.violation(mod, case, 'object with an earlier life (%s): value at settled sample %d (t+h=%d < |w1|=%d) changes from %r to %r when the trace is extended'
+                                  % (name, bad[0], bad[0] + h, L1, o1[bad[0]], o2[bad[0]]))
+                    res.outcomes['settled value changed'] += 1
+                else:
+                    res.outcomes['stable'] += 1
+                    res.flags['life_cases'] += 1
+                    if any(not refsem.same(o1[t], o2[t]) for t in range(L1) if t not in settled):
+                        res.nontrivial += 1
+                        res.flags['life_nontrivial'] += 1
+                res.digest(text, name, w2, L1, bool(bad))
+    res.sample({'spec': text, 'lives': [l[0] for l in reconf.lives()][:4], 'w2_max_len': n1 + ext}, 1)
 
 
 def dense_ext_signals(nvars, tier):
@@ -175,6 +237,8 @@ def run_shard(shard, tier, res):
     mod = sys.modules[__name__]
     if shard['kind'] == 'dt':
         run_dt(shard, tier, res, mod)
+    elif shard['kind'] == 'life':
+        run_life(shard, tier, res, mod)
     else:
         run_ct(shard, tier, res, mod)
 
@@ -182,6 +246,14 @@ def run_shard(shard, tier, res):
 def replay(case):
     f = F.from_json(case['formula'])
     h = refsem.horizon(f)
+    if case['kind'] == 'life':
+        c1, f1, spec = reconf.lived_object('dt_off', f, case['suffix'], case['vars'], case['life'])
+        h = refsem.horizon(f1)
+        w1 = tuple(tuple(e) for e in case['w1']); w2 = tuple(tuple(e) for e in case['w2'])
+        o1 = [p[1] for p in impl.dt_evaluate(spec, F.trace_dict(w1, case['vars']), reconf.times(c1, len(w1)))]
+        o2 = [p[1] for p in impl.dt_evaluate(spec, F.trace_dict(w2, case['vars']), reconf.times(c1, len(w2)))]
+        bad = [t for t in range(len(w1)) if t + h < len(w1) and not refsem.same(o1[t], o2[t])]
+        return ['settled sample %d changes from %r to %r' % (bad[0], o1[bad[0]], o2[bad[0]])] if bad else []
     if case['kind'] == 'dt':
         spec = impl.build('dt_off', case['spec'], case['vars'])
         w1 = tuple(tuple(e) for e in case['w1']); w2 = tuple(tuple(e) for e in case['w2'])
@@ -202,4 +274,6 @@ def finalize(agg, outcomes, flags, tier):
     from ..runner import Broken
     if agg['nontrivial'] < 1000:
         raise Broken('vacuous: only %d cases in which an unsettled position changes' % agg['nontrivial'])
-    return {}
+    if flags.get('life_nontrivial', 0) < 100:
+        raise Broken('vacuous: only %d non-trivial cases on re-configured objects' % flags.get('life_nontrivial', 0))
+    return {'cases_on_reconfigured_objects': flags.get('life_cases', 0)}
